@@ -28,6 +28,9 @@ namespace dzn
       std::function<void()> closure_begin;           // on the dispatcher: a closure is about to run (yield point)
     };
     inline hooks& the_hooks() { static hooks h; return h; }
+    // > 0 while the current thread executes harness/mock code (its lock operations are not yield points)
+    inline int& harness_depth() { static thread_local int d = 0; return d; }
+    struct hscope { hscope() { ++harness_depth(); } ~hscope() { --harness_depth(); } };
     inline std::atomic<bool>& free_running() { static std::atomic<bool> f{false}; return f; }
   }
 
@@ -51,7 +54,7 @@ namespace dzn
     void operator()(const std::function<void()>& f) { post(f, false); }
 
     void post(const std::function<void()>& f, bool from_shell)
-    {
+    { verif::hscope hs_;
       {
         std::unique_lock<std::mutex> lock(m_mutex);
         m_queue.push_back(f);
@@ -64,12 +67,12 @@ namespace dzn
     // ---- harness-only interface -------------------------------------------------------------
     std::thread::id worker_id() const { return m_worker.get_id(); }
     bool in_dispatcher() const { return std::this_thread::get_id() == m_worker.get_id(); }
-    size_t queued() const { std::unique_lock<std::mutex> lock(m_mutex); return m_queue.size(); }
-    size_t posted() const { std::unique_lock<std::mutex> lock(m_mutex); return m_posted; }
-    size_t executed() const { std::unique_lock<std::mutex> lock(m_mutex); return m_executed; }
+    size_t queued() const { verif::hscope hs_; std::unique_lock<std::mutex> lock(m_mutex); return m_queue.size(); }
+    size_t posted() const { verif::hscope hs_; std::unique_lock<std::mutex> lock(m_mutex); return m_posted; }
+    size_t executed() const { verif::hscope hs_; std::unique_lock<std::mutex> lock(m_mutex); return m_executed; }
     // run exactly one queued closure on the worker thread and wait until it has returned
     bool step()
-    {
+    { verif::hscope hs_;
       std::unique_lock<std::mutex> lock(m_mutex);
       if (m_queue.empty()) return false;
       size_t target = m_executed + 1;
@@ -80,20 +83,23 @@ namespace dzn
     }
     // grant one closure without waiting for it to finish (the scheduler watches progress itself)
     bool grant()
-    {
+    { verif::hscope hs_;
       std::unique_lock<std::mutex> lock(m_mutex);
       if (m_queue.empty()) return false;
+      size_t target = m_started + 1;
       ++m_grants;
       m_cv.notify_all();
+      m_cv.wait(lock, [&] { return m_started >= target; });     // the worker has picked the closure up (running() is true now)
       return true;
     }
-    bool running() const { std::unique_lock<std::mutex> lock(m_mutex); return m_running; }
+    bool running() const { verif::hscope hs_; std::unique_lock<std::mutex> lock(m_mutex); return m_running; }
 
   private:
     void worker()
     {
       for (;;)
       {
+        verif::harness_depth() = 1;
         std::function<void()> f;
         {
           std::unique_lock<std::mutex> lock(m_mutex);
@@ -103,9 +109,13 @@ namespace dzn
           m_queue.pop_front();
           if (!verif::free_running()) --m_grants;
           m_running = true;
+          ++m_started;
         }
+        m_cv.notify_all();
         if (verif::the_hooks().closure_begin) verif::the_hooks().closure_begin();
+        verif::harness_depth() = 0;
         f();
+        verif::harness_depth() = 1;
         {
           std::unique_lock<std::mutex> lock(m_mutex);
           ++m_executed;
@@ -118,7 +128,7 @@ namespace dzn
     std::condition_variable m_cv;
     std::deque<std::function<void()>> m_queue;
     bool m_stop;
-    size_t m_grants, m_executed, m_posted;
+    size_t m_grants, m_executed, m_posted, m_started = 0;
     bool m_running;
     std::thread m_worker;
   };
@@ -128,20 +138,22 @@ namespace dzn
   typename std::enable_if<std::is_void<R>::value, void>::type
   shell(dzn::pump& pump, L&& l)
   {
+    verif::hscope hs_;
     std::promise<void> p;
     auto& h = verif::the_hooks();
     if (h.shell_enter) h.shell_enter(&p);
-    pump.post([&] { l(); if (h.shell_done) h.shell_done(&p); p.set_value(); }, true);
+    pump.post([&] { l(); verif::hscope hs2_; if (h.shell_done) h.shell_done(&p); p.set_value(); }, true);
     p.get_future().get();
   }
   template <typename L, typename R = decltype(std::declval<L>()())>
   typename std::enable_if<!std::is_void<R>::value, R>::type
   shell(dzn::pump& pump, L&& l)
   {
+    verif::hscope hs_;
     std::promise<R> p;
     auto& h = verif::the_hooks();
     if (h.shell_enter) h.shell_enter(&p);
-    pump.post([&] { R r = l(); if (h.shell_done) h.shell_done(&p); p.set_value(std::move(r)); }, true);
+    pump.post([&] { R r = l(); verif::hscope hs2_; if (h.shell_done) h.shell_done(&p); p.set_value(std::move(r)); }, true);
     return p.get_future().get();
   }
 }
